@@ -311,13 +311,13 @@ func Harness_app_bad_input() {
 	case 5:
 		logName = verifDir("log")
 	default:
-		logName = verifFile("log", logText)
+		logName = verifFile("my$log", logText) // a path is a path: '$' is not an environment reference
 	}
 	switch fault {
 	case 6:
 		dbName = verifDir("db")
 	default:
-		dbName = verifFile("db", dbText)
+		dbName = verifFile("db$HOME", dbText)
 	}
 	relevant := fault == 0 || (cmd.log && (fault == 1 || fault == 2 || fault == 5 || fault == 7)) || (cmd.db && (fault == 3 || fault == 4 || fault == 6))
 	if !relevant {
@@ -352,7 +352,8 @@ func Harness_app_failing_stdout() {
 		ci = verifChoose("command", len(hFileCmds)+1)
 	}
 	var args []string
-	logName, dbName := verifFile("log", hAppLog), verifFile("db", hAppDB)
+	logText := []string{hAppLog, "", "# nothing logged yet\n", "24.01.2021:\n  f0: 1\n"}[verifChoose("log", 4)] // usual; empty; comments only; dates in another layout
+	logName, dbName := verifFile("log", logText), verifFile("db", hAppDB)
 	if ci == len(hFileCmds) {
 		verifLabel("site", "lint")
 		args = []string{"lint", verifFile("lint", hAppLog+"  broken\n")}
@@ -360,14 +361,17 @@ func Harness_app_failing_stdout() {
 		verifLabel("site", hFileCmds[ci].name)
 		args = append([]string{"--logfile=" + logName, "--database=" + dbName}, hFileCmds[ci].args...)
 	}
-	failAt := verifChoose("fail-at", 2) - 1
-	_, err := hApp(failAt, args...)
+	// a healthy run first: what would be written, and whether the command succeeds at all
+	out, err0 := hApp(-1, args...)
 	verifCover("ran")
-	if verifStdoutFailed() {
-		verifAssert("lost-output-is-error", err != nil)
-	} else if args[0] != "lint" {
-		verifAssert("complete-output-succeeds", err == nil)
+	if args[0] != "lint" && logText == hAppLog {
+		verifAssert("complete-output-succeeds", err0 == nil)
 	}
+	if len(verifLines(out)) == 0 {
+		return // nothing is written (an empty report): nothing can be lost
+	}
+	_, err := hApp(0, args...)
+	verifAssert("lost-output-is-error", err != nil)
 }
 
 // Harness_app_probe: one run of the application (engine bring-up and step profile).
@@ -640,4 +644,133 @@ func Harness_app_color() {
 	default:
 		verifAssert("zero-is-uncoloured", !red && !green)
 	}
+}
+
+// Harness_app_sequence: no state is kept between runs in one process: a command B gives the
+// same output and status when it is run first and when it is run again after another command A
+// (other flags: shortening, colour, date format, template, single element/food, totals).
+func Harness_app_sequence() {
+	variants := [][]string{
+		{"reg"},
+		{"reg", "--shorten"},
+		{"--no-color", "reg"},
+		{"--date-format=2006-01-02", "reg"},
+		{"reg", "--internal-template-name=left-aligned"},
+		{"reg", "--totals-only"},
+		{"reg", "-s", "x"},
+		{"reg", "-s", "x", "-g"},
+		{"bal"},
+		{"bal", "-s", "x"},
+		{"summary", "2021/01/01"},
+		{"report", "totals"},
+		{"csv", "database-resolved"},
+		{"--maxdepth=1", "csv", "database-resolved"},
+	}
+	ai := verifChoose("first-other", len(variants))
+	bi := verifChoose("command", len(variants))
+	verifAssume(ai != bi)
+	verifLabel("site", strings.Join(variants[bi], " "))
+	verifLabel("after", strings.Join(variants[ai], " "))
+	longLog := "2021/01/01:\n  sweets/pasencia white/sm bonus/100g: 2\n  f1: 1\n  x: -1\n2021/01/02:\n  f0: 1.5\n"
+	base := []string{"--logfile=" + verifFile("log", longLog), "--database=" + verifFile("db", hAppDB)}
+	run := func(v []string) (string, error) {
+		var g, rest []string
+		for _, a := range v {
+			if strings.HasPrefix(a, "--") && len(rest) == 0 && a != "--shorten" {
+				g = append(g, a)
+			} else {
+				rest = append(rest, a)
+			}
+		}
+		return hApp(-1, append(append(append([]string{}, base...), g...), rest...)...)
+	}
+	o1, e1 := run(variants[bi])
+	run(variants[ai])
+	o2, e2 := run(variants[bi])
+	verifCover("ran-twice")
+	verifAssert("same-error-status", (e1 == nil) == (e2 == nil))
+	verifAssert("same-output-after-another-command", o1 == o2)
+}
+
+// Harness_app_maxdepth: the resolve depth reaches every command that resolves the book, from
+// the global flag, the environment and the configuration file in that precedence: with a book
+// nested 3 references deep a limit of 1, 2 or 3 is the maximum-depth error, 4 or more resolves.
+func Harness_app_maxdepth() {
+	cmds := [][]string{{"reg"}, {"bal"}, {"bal", "-s", "x"}, {"summary", "2021/01/01"}, {"csv", "database-resolved"},
+		{"report", "element-total", "x"}, {"report", "totals"}, {"report", "unresolved"}, {"reg", "-s", "x"}}
+	cmd := cmds[verifChoose("command", len(cmds))]
+	verifLabel("site", strings.Join(cmd, " "))
+	book := "top:\n  mid: 2\nmid:\n  low: 3\nlow:\n  x: 1\n" // top -> mid -> low -> x: 3 references
+	args := []string{"--logfile=" + verifFile("log", "2021/01/01:\n  top: 1\n"), "--database=" + verifFile("db", book)}
+	vals := []string{"", "1", "2", "3", "4", "10"}
+	fi, ei, ci := verifChoose("flag", len(vals)), verifChoose("env", 3), verifChoose("config", 3)
+	eff := "10"
+	if ci > 0 {
+		v := []string{"", "2", "5"}[ci]
+		args = append(args, "--config="+verifFile("cfg", "[Resolver]\nMaxDepth = "+v+"\n"))
+		eff = v
+	} else {
+		args = append(args, "--config="+verifFile("cfg", "[Global]\n"))
+	}
+	if ei > 0 {
+		v := []string{"", "3", "6"}[ei]
+		verifSetenv("HR_MAXDEPTH", v)
+		eff = v
+	}
+	if vals[fi] != "" {
+		args = append(args, "--maxdepth="+vals[fi])
+		eff = vals[fi]
+	}
+	verifLabel("effective-depth", eff)
+	_, err := hApp(-1, append(args, cmd...)...)
+	verifCover("ran")
+	if eff == "1" || eff == "2" || eff == "3" {
+		verifAssert("maxdepth:book-nested-as-deep-as-the-limit-is-rejected", err != nil)
+	} else {
+		verifAssert("maxdepth:book-nested-less-deeply-than-the-limit-resolves", err == nil)
+	}
+}
+
+// Harness_app_stats_today: `stats` shows the current date given with --today (or Now in the
+// configuration file) as that date, in every process time zone.
+func Harness_app_stats_today() {
+	src := verifChoose("source", 2)
+	args := []string{"--logfile=" + verifFile("log", hAppLog), "--database=" + verifFile("db", hAppDB)}
+	if src == 0 {
+		args = append(args, "--config="+verifFile("cfg", "[Global]\n"), "--today=2021/01/24")
+	} else {
+		args = append(args, "--config="+verifFile("cfg", "[Global]\n"), "--date-format=2006-01-02", "--today=2021-01-24", "--logfile="+verifFile("log2", "2021-01-01:\n  f0: 1\n"))
+	}
+	out, err := hApp(-1, append(args, "stats")...)
+	verifCover("ran")
+	verifAssert("stats-ok", err == nil)
+	want := []string{"2021/01/24", "2021-01-24"}[src]
+	found := false
+	for _, l := range verifLines(out) {
+		w := verifWords(l)
+		if len(w) >= 2 && w[0] == "Today:" {
+			found = w[1] == want
+		}
+	}
+	verifAssert("today:shown-as-given-in-every-time-zone", found)
+}
+
+// Harness_app_twice: the same command twice on the same files (run under -maporder=repo: every
+// visiting order of the maps the repository's own code ranges over, independently per run):
+// byte-identical output and the same status. The log has names that differ only in letter case
+// and equal quantities, the book two recipes.
+func Harness_app_twice() {
+	cmds := [][]string{{"reg"}, {"reg", "--use-old-reg-reporter"}, {"summary", "2021/01/01"}, {"report", "totals"}, {"report", "quantity"},
+		{"report", "quantity", "--desc"}, {"bal"}, {"bal", "-s", "x"}, {"report", "unresolved"}, {"report", "element-total", "x"}, {"csv", "database-resolved"}, {"print"}, {"csv", "log"}}
+	cmd := cmds[verifChoose("command", len(cmds))]
+	verifLabel("site", strings.Join(cmd, " "))
+	tok, _ := verifNum("qty")
+	logText := "2021/01/01:\n  X: " + tok + "\n  x: " + tok + "\n  f0: 1\n"
+	dbText := "f0:\n  x: 2\n  X: 2\nf1:\n  f0: 1\n"
+	args := append([]string{"--no-color", "--logfile=" + verifFile("log", logText), "--database=" + verifFile("db", dbText)}, cmd...)
+	o1, e1 := hApp(-1, args...)
+	o2, e2 := hApp(-1, args...)
+	verifCover("ran-twice")
+	verifAssert("same-error-status", (e1 == nil) == (e2 == nil))
+	verifAssert("same-output", o1 == o2)
 }
